@@ -459,6 +459,7 @@ fn main() {
         Some("index_at_m") => index_at_m(),
         Some("duplicate") => duplicate(),
         Some("pop_halves") => pop_halves(),
+        Some("lost_index") => lost_index(),
         Some("merkle_forge") => merkle_forge(&a[1]),
         Some("sample_points") => {
             let params = Parameters { m: 4, k: 2, phi_f: 1.0 };
@@ -604,4 +605,35 @@ fn pop_halves() -> String {
         out.push(format!("same_key_twice={}{}/{}", if first && !second { "" } else { "VIOLATED " }, first, second));
     }
     out.join(" ")
+}
+
+
+/// an otherwise honest one-signature aggregate whose index list is replaced by an index the signer LOST: the aggregate verifier must
+/// evaluate the lottery with the signer's registered stake over the total stake and refuse it
+fn lost_index() -> String {
+    let params = Parameters { m: 200, k: 1, phi_f: 0.2 };
+    let (signers, clerk) = setup(params, &[1, 1, 1, 1, 1, 1, 1, 1, 1, 1]);
+    let avk = clerk.compute_aggregate_verification_key();
+    for c in 0u64..2000 {
+        let msg = c.to_le_bytes().to_vec();
+        for s in signers.iter() {
+            let sig = match s.create_single_signature(&msg) { Ok(x) => x, Err(_) => continue };
+            let won = sig.get_concatenation_signature_indices();
+            if won.is_empty() { continue; }
+            let lost: Vec<u64> = (0..params.m).filter(|i| !won.contains(i)).collect();
+            let honest = with_indexes(&sig, &won[..1]);
+            let mut v = agg_json(&clerk, &[honest], &msg);
+            let control: mithril_stm::AggregateSignature<D> = serde_json::from_value(v.clone()).unwrap();
+            let control_ok = control.verify(&msg, &avk, &params, None, None).is_ok();
+            let mut accepted = 0;
+            for i in lost.iter().take(40) {
+                v["signatures"][0][0]["indexes"] = serde_json::json!([i]);
+                let forged: mithril_stm::AggregateSignature<D> = serde_json::from_value(v.clone()).unwrap();
+                let (m2, a2) = (msg.clone(), avk.clone());
+                if catch(move || verdict(forged.verify(&m2, &a2, &params, None, None))).starts_with("accepted") { accepted += 1; }
+            }
+            return format!("control={} lost_indices_accepted={}{}/40", if control_ok { "accepted" } else { "VIOLATED rejected" }, if accepted > 0 { "VIOLATED " } else { "" }, accepted);
+        }
+    }
+    "scenario-not-built".to_string()
 }
